@@ -261,6 +261,12 @@ def _run_path(world, c, params, tag, it, path, rep, first):
             old.vars['OLD_' + nm] = v.m
         elif isinstance(v, MList):
             old.vars['OLD_' + nm] = v.seq
+        elif type(v).__name__ == 'ObjVal':
+            for fld, fv in v.fields.items():
+                if isinstance(fv, SMapCell):
+                    old.vars['OLD_' + fld] = fv.m
+                elif isinstance(fv, MList):
+                    old.vars['OLD_' + fld] = fv.seq
     old.vars.update(it.ghost_vars)
     old.vars.update(world.spec_helpers(it))
     for r in c.requires:
